@@ -230,7 +230,7 @@ func init() {
 							continue
 						}
 						s := tblSpec{Rows: n + len(dupAt), NCols: 3, Style: int(gen.CellSimple), PK: pk, TableSeed: rng.Int63(), DupAt: dupAt}
-						l.Add("ingest", c03Params{Producer: "ingest", T: s, Cfg: ingCfg{Chunks: []string{"none", "two", "five"}[rng.Intn(3)], Workers: workerChoices[rng.Intn(5)], Store: "mem", Via: "pkg"}}, 0)
+						l.Add("ingest", c03Params{Producer: "ingest", T: s, Cfg: ingCfg{Chunks: []string{"none", "two", "five"}[rng.Intn(3)], Workers: workerChoices[rng.Intn(len(workerChoices))], Store: "mem", Via: "pkg"}}, 0)
 					}
 				}
 			}
@@ -248,7 +248,7 @@ func init() {
 				if prod == "reingest" {
 					defect = "duprows"
 				}
-				l.Add(prod, c03Params{Producer: prod, T: s, Defect: defect, UseIndex: rng.Intn(2) == 0, Cfg: ingCfg{Chunks: []string{"none", "two"}[rng.Intn(2)], Workers: workerChoices[rng.Intn(5)]}}, 0)
+				l.Add(prod, c03Params{Producer: prod, T: s, Defect: defect, UseIndex: rng.Intn(2) == 0, Cfg: ingCfg{Chunks: []string{"none", "two"}[rng.Intn(2)], Workers: workerChoices[rng.Intn(len(workerChoices))]}}, 0)
 			}
 			return l.Cases
 		},
